@@ -111,6 +111,36 @@ func corpus() []*Case {
 		c.Services.HTTPStatus = []int{410, 200}
 		out = append(out, c)
 	}
+	// references that exist ONLY in a translation of a localized+evaluated member whose base value is empty,
+	// run for a contact in the translation language
+	for _, member := range []string{"quick_replies", "attachments", "template_variables"} {
+		val := "@globals.greeting"
+		if member == "attachments" {
+			val = "image/jpeg:http://x.io/@(fields.nick).jpg"
+		}
+		items := []Item{{Key: "text", Tpl: &TField{Key: "text", Vals: []string{"Hola"}, Shape: "string", Localized: true}}}
+		for _, k := range []string{"attachments", "quick_replies"} {
+			tf := &TField{Key: k, Vals: []string{}, Shape: "list", Localized: true}
+			if k == member {
+				tf.Trans = map[string][]string{"spa": {val}}
+			}
+			items = append(items, Item{Key: k, Tpl: tf})
+		}
+		tpl := Ref{Kind: "template", ID: uu(kTemplate, 0), Name: "affirmation"}
+		tv := &TField{Key: "template_variables", Vals: []string{}, Shape: "list", Localized: true}
+		if member == "template_variables" {
+			items = append(items, Item{Key: "template", Ref: &tpl})
+			tv.Trans = map[string][]string{"spa": {val, "@fields.nick"}}
+		} else {
+			items = append(items, Item{Key: "template", Omitted: true})
+		}
+		items = append(items, Item{Key: "template_variables", Tpl: tv})
+		n := &Node{UUID: b.id(kNode), Actions: []*Action{{Type: "send_msg", UUID: b.id(kAction), Behav: "plain", Items: items, Extra: map[string]any{}}}}
+		n.Exits = []Exit{b.exit("")}
+		c := baseCase("corpus-translation-only-"+member, mkflow(0, n))
+		c.Contact.Language = "spa"
+		out = append(out, c)
+	}
 	// voice flow whose dial wait takes the number to dial from a contact field / a global
 	for _, phone := range []string{"@fields.phone", "@globals.org_name"} {
 		e1, e2 := b.exit(""), b.exit("")
